@@ -5,6 +5,9 @@
 import ChialispModel.Drv.Base
 import ChialispModel.Drv.Conv
 import ChialispModel.Drv.Src
+import ChialispModel.Drv.Text
+import ChialispModel.Drv.Serde
+import ChialispModel.Drv.Tables
 import ChialispModel.Drv.Opt
 import ChialispModel.Drv.Atomic
 import ChialispModel.Drv.Deps
@@ -18,6 +21,9 @@ def main (args : List String) : IO UInt32 := do
   | ["base"] => Drv.Base.run; return 0
   | ["conv"] => Drv.Conv.run; return 0
   | ["src"] => Drv.Src.run; return 0
+  | ["text"] => Drv.Text.run; return 0
+  | ["serde"] => Drv.Serde.run; return 0
+  | ["tables"] => Drv.Tables.run; return 0
   | ["opt"] => Drv.Opt.run; return 0
   | ["atomic"] => Drv.Atomic.run; return 0
   | ["deps"] => Drv.Deps.run; return 0
